@@ -141,13 +141,13 @@ PLANS.update({
     ),
     "C10": P(
         "model_checking",
-        ["pair.format", "pair.present", "holder.new"],
+        ["pair.format", "pair.present", "pair.holder", "holder.new"],
         [KB_WIDE, KB_DEEP],
         [{"driver": "replay", "scn": "kb_wide", "args": {"n": 400, "matrix": 0}}, {"driver": "attack", "args": {"n": 12, "family": "all", "stride": 40}},
          {"driver": "rich", "args": {"n": 300, "depth": 4, "arbsel": 0.2, "xfmt": 1, "rekb": 1}}, {"driver": "history", "args": {"random": 100, "only": "holder"}}],
         [{"driver": "replay", "scn": "kb_wide", "args": {"n": 100000, "matrix": 0}}, {"driver": "replay", "scn": "kb_deep", "args": {"n": 6000, "matrix": 0}}, {"driver": "attack", "args": {"n": 60, "family": "all", "stride": 3}},
          {"driver": "rich", "args": {"n": 10000, "depth": 7, "arbsel": 0.2, "xfmt": 1, "rekb": 1}}, {"driver": "history", "args": {"random": 3000, "only": "holder"}}],
-        required={"pair.format": 1000, "pair.present": 150, "holder.new": 300},
+        required={"pair.format": 1000, "pair.present": 150, "pair.holder": 100, "holder.new": 300},
         rule="cases = pairs (Compact, JSON) of the same abstract message: every Verify of the replayed MC_kb behaviours and of the tampering families (honest and tampered), "
              "JSON spelled with kb_jwt absent / null / an unknown member; holders built from both forms of random SD-JWTs presenting the same selection; distinct = distinct pairs",
         assumptions=_A,
